@@ -236,8 +236,15 @@ func c07forkexec(x *mc.X) {
 	fi := x.Choose(len(c07faults), "fault")
 	f := c07faults[fi]
 	cfg := c07pickCfg(x)
+	// long descriptor list whose scratch duplicates walk up to the internal socket (only for a few fault classes)
+	long := false
+	switch f.name {
+	case "none", "chdir(missing)", "execve(ENOENT)", "callback(error)", "rlimit0(soft>hard)":
+		long = x.Bool("long-descriptor-list")
+	}
 	x.Note("config", cfg.String())
 	x.Note("fault", f.name)
+	x.Note("long-list", long)
 	if (f.need == "userns" && !cfg.userns) || (f.need == "pivot" && !cfg.pivot) || (f.need == "sync" && !cfg.sync) {
 		x.Outcome("n/a")
 		return
@@ -251,7 +258,20 @@ func c07forkexec(x *mc.X) {
 		return
 	}
 	defer sc.cleanup()
-	ctxs := fmt.Sprintf("forkexec %s, fault %s", cfg, f.name)
+	if long {
+		_, p1 := lowestFree2()
+		n := p1 - 1
+		if n >= 4 {
+			sc.r.Files = make([]uintptr, n)
+			for i := range sc.r.Files {
+				sc.r.Files[i] = devnull()
+				if i > int(devnull()) {
+					sc.r.Files[i] = uintptr(i % 3) // entries below their slot index need a scratch duplicate
+				}
+			}
+		}
+	}
+	ctxs := fmt.Sprintf("forkexec %s, fault %s, long list %v", cfg, f.name, long)
 	self := exeOf(os.Getpid())
 	cbPid := 0
 	if cfg.sync {
@@ -292,7 +312,7 @@ func c07forkexec(x *mc.X) {
 	}
 	x.Note("error", err.Error())
 	if f.name != "none" {
-		x.Distinct(fmt.Sprint("f", cfg, f.name, err))
+		x.Distinct(fmt.Sprint("f", cfg, f.name, long, err))
 	}
 	x.Outcome("error:" + err.Error())
 	if f.name == "none" {
